@@ -129,6 +129,23 @@ func (c03) Gen(seed uint64, run int, tier string) *core.Case {
 	}
 	tab := routes.Table()
 	n := 6 + r.IntN(15)
+	if r.IntN(8) == 0 {
+		// a policy that tells the source of a copy from its destination: the caller may write (and read) the
+		// destination but has no, or an explicitly denied, read right on the source; same-bucket copies follow
+		who := []string{uA, uB}[r.IntN(2)]
+		pol := &model.Policy{Statements: []model.Statement{{Effect: "Allow", Principals: []string{who},
+			Actions: []string{"s3:PutObject", "s3:GetObject", "s3:ListMultipartUploadParts", "s3:AbortMultipartUpload"}, Resources: []string{"arn:aws:s3:::alpha/copied", "arn:aws:s3:::alpha/mp/*"}}}}
+		if r.IntN(2) == 0 {
+			pol.Statements[0].Actions = []string{"s3:*"}
+			pol.Statements[0].Resources = []string{"arn:aws:s3:::alpha", "arn:aws:s3:::alpha/*"}
+			pol.Statements = append(pol.Statements, model.Statement{Effect: "Deny", Principals: []string{who}, Actions: []string{"s3:GetObject"}, Resources: []string{"arn:aws:s3:::alpha/obj1"}})
+		}
+		p.Policy = pol
+		caller := map[string]string{uA: "userA", uB: "userB"}[who]
+		for _, id := range []string{"CopyObject", "UploadPartCopy"} {
+			p.Reqs = append(p.Reqs, c03Req{Route: id, Caller: caller, GW: r.IntN(cfg.Instances)})
+		}
+	}
 	for i := 0; i < n; i++ {
 		rt := tab[r.IntN(len(tab))]
 		if rt.AdminOnly || rt.ID == "ListBuckets" || rt.ID == "CreateBucket" {
